@@ -350,6 +350,10 @@ class ExprMixin:
             if all(v.ty.kind == "bool" for v in vals):
                 f = smt.And if is_and else smt.Or
                 return [(st, mk_bool(f(*[v.t for v in vals])))]
+            if any(v.ty.kind == "bool" for v in vals):
+                # a clause mixing conditions with other values is a condition: only the truth of each operand counts
+                f = smt.And if is_and else smt.Or
+                return [(st, mk_bool(f(*[self.truthy(v) for v in vals])))]
             # value semantics: a and b -> b if a else a
             cur = vals[-1]
             for v in reversed(vals[:-1]):
